@@ -126,7 +126,11 @@ def handle (args : List String) (impl : String) : R Ans :=
     let seqs ← (seqs.splitOn ",").mapM digits
     let all := seqs.flatMap (windowsOf K)
     let txt := if all.isEmpty then "-" else ",".intercalate (all.map showDigits)
-    pure { model := txt, verdict := if impl == txt then "ok" else "FAIL:iteration-over-all-nodes-differs-from-the-kmers-of-the-graph" }
+    -- the harness also builds perfect-hash indexes from the iteration (serial and parallel) and checks distinct slots
+    let model := txt ++ "|mphf=1"
+    pure { model, verdict := if impl == model then "ok"
+                             else if (impl.splitOn "|").head? == some txt then "FAIL:perfect-hash-index-built-from-the-iteration-is-not-injective"
+                             else "FAIL:iteration-over-all-nodes-differs-from-the-kmers-of-the-graph" }
   | _ => throw "bad-request"
 
 end Drv.C18
